@@ -27,6 +27,10 @@ func (Area) Exec(input string) string {
 		return execHTTP(f)
 	case "ws":
 		return execWS(f)
+	case "bind":
+		return execBind(f)
+	case "wsup":
+		return execWSUp(f)
 	}
 	return "BADOP"
 }
@@ -247,6 +251,39 @@ func (Area) Gen(r *rand.Rand, tier string, emit func(string)) {
 	if tier == "thorough" {
 		nHTTP, nWS, maxMsgs, maxFrames = 12000, 4000, 40, 12
 	}
+	// Bind itself, exhaustively: 4 RPC kinds x every Accept x every Content-Type of the menus
+	seenA := map[string]bool{}
+	for _, cs := range []bool{false, true} {
+		for _, ss := range []bool{false, true} {
+			for _, acc := range acceptMenu {
+				for _, ct := range ctypeMenu {
+					line := fmt.Sprintf("bind %s %s %s %s", b01(cs), b01(ss), hexTexts(acc), hexTexts(ct))
+					if !seenA[line] {
+						seenA[line] = true
+						emit(line)
+					}
+				}
+			}
+		}
+	}
+	note(fmt.Sprintf("bind exhaustive=%d", len(seenA)))
+	// WebSocket handshakes: every RPC kind x every Accept of the menu (x a few Content-Types)
+	wsCT := [][]string{nil, {"application/json"}, {"application/x-protobuf"}, {"text/plain"}}
+	nUp := 0
+	for _, cs := range []bool{false, true} {
+		for _, ss := range []bool{false, true} {
+			for ai, acc := range acceptMenu {
+				for ci, ct := range wsCT {
+					if tier != "thorough" && (ai+ci)%2 == 1 && !contains(acc, "text/event-stream") {
+						continue
+					}
+					emit(fmt.Sprintf("wsup %s %s %s %s %s", b01(cs), b01(ss), b01(r.Intn(2) == 0), hexTexts(acc), hexTexts(ct)))
+					nUp++
+				}
+			}
+		}
+	}
+	note(fmt.Sprintf("wsup handshakes=%d", nUp))
 	for i := 0; i < nHTTP; i++ {
 		emit(genHTTP(r, maxMsgs))
 	}
